@@ -73,7 +73,7 @@ pub fn generate(r: &mut Rng, tier: Tier, run_index_hint: u64) -> Scenario {
     // The analyzer is roughly cubic in the number of instructions it is handed, and a replayed
     // block that contains include directives multiplies whole files: keep what the parser will see
     // below ~1500 lines, where a terminating run still fits well inside the CPU limits.
-    if crate::world::paste(&world, &[]).len() > 1500 {
+    if crate::world::paste(&world, &[]).len() > 1500 || world.effective_chars(60_000) > 60_000 {
         world = before_faults;
         content.clear();
         note.push_str("faults-dropped(too-large) ");
